@@ -147,6 +147,13 @@ func srcFeatures(m *d2ast.Map) []string {
 				}
 				if !(nb.MapKey.Value.Map != nil && len(nb.MapKey.Value.Map.Nodes) > 0) {
 					set["boards:dropped"] = true
+				} else {
+					// a board entry written `name: {}` is printed as `name` (mapKey drops empty maps)
+					for _, e := range nb.MapKey.Value.Map.Nodes {
+						if e.MapKey != nil && e.MapKey.Value.Map != nil && len(e.MapKey.Value.Map.Nodes) == 0 {
+							set["boards:empty-entry"] = true
+						}
+					}
 				}
 			} else if nb.Comment == nil && nb.BlockComment == nil {
 				if seenInherit {
